@@ -178,6 +178,22 @@ def new_parent_check(h, design, built, dname):
         twin.add(h.Signal(name="tw", width=3))
         twin.add(h.R(r=1)(p=getattr(twin, bport).only[0], n=twin.tw[1]), name="rt")
         h.to_proto(twin)
+        # ... and so is an external module that has the name (and domain) of one the DAG uses, but other ports
+        from ..families.base import ext_leaf
+        _dom = "hv"  # the domain hv/build.py gives its external modules
+    except Exception as e:
+        return ("twin_raised", short_exc(e))
+    try:
+        ext_twin = h.ExternalModule(name="P1", domain=_dom, port_list=[h.Port(name="a"), h.Port(name="second")], paramtype=dict)
+        tu = h.Module(name="TwinUser")
+        tu.s1, tu.s2 = h.Signal(), h.Signal()
+        tu.e = ext_twin(dict(k=1))(a=tu.s1, second=tu.s2)
+        tpkg = h.to_proto(tu)
+        from .. import wf as _wf
+
+        probs = _wf.wf(tpkg)
+        if probs:
+            return ("twin_ext_wrong", "a later design using another external module of the same qualified name: " + probs[0])
     except Exception as e:
         return ("twin_raised", short_exc(e))
     # ... and built on the *already elaborated* objects
